@@ -484,9 +484,25 @@ def split_targs(s):
     return out
 
 
+def _finish(ck, rule, key, problems, unknown, okmsg, file, line, sample=None):
+    """definite contradictions -> violation; only unrecognised shapes -> analysis-incomplete; else discharged"""
+    if problems:
+        ck.ob(rule, key, False, "; ".join(problems[:3]), file, line, sample=sample)
+    elif unknown:
+        ck.incomplete(rule, "%s: %s" % (key, "; ".join(unknown[:3])))
+    else:
+        ck.ob(rule, key, True, okmsg, file, line, sample=sample)
+
+
+def _strip_idx(loc):
+    return loc_name(Loc(loc.root, tuple(p for p in loc.path if not (isinstance(p, int) or (isinstance(p, str) and p.startswith("#"))))))
+
+
 def analyse_route(ck, facts, key, fns, two_space, kind, coeff=False):
     """fns: list of functions executed in sequence on the same state (e.g. Task::assemble, Task::scatter).
-    kind: 'matrix' | 'vector'"""
+    kind: 'matrix' | 'vector'.  Verdict policy: a rule instance is a VIOLATION only for a definite contradiction
+    between recognised operands (roles swapped, factor missing/doubled among recognised factors, wrong mapping);
+    every operand shape the matcher does not recognise makes the instance analysis-incomplete."""
     sx = AbsSymEx([facts], inline_filter=route_filter)
     f0 = fns[0]
     try:
@@ -507,7 +523,7 @@ def analyse_route(ck, facts, key, fns, two_space, kind, coeff=False):
     if not evals:
         ck.incomplete("E1.accumulate-roles", "%s: no operator/functional eval call found on the route" % key)
         return
-    fills = {}   # data loc name -> (evaluator loc, evaluator class, trafo data loc name)
+    fills = {}   # data loc name -> event of the space evaluator call that fills it
     trafo_fill = {}
     for e in evs:
         if e["kind"] == "call" and e["callee"].endswith("::operator()") and len(e["args"]) == 2 and e["this"] is not None and isinstance(e["args"][0], Loc):
@@ -516,96 +532,111 @@ def analyse_route(ck, facts, key, fns, two_space, kind, coeff=False):
                 trafo_fill[loc_name(e["args"][0])] = e
             elif cls.startswith("FEAT::Space::"):
                 fills[loc_name(e["args"][0])] = e
+    evaluators = {loc_name(e["this"]) for e in fills.values()}
     weights = {("CALL%d:get_weight" % e["n"]): e for e in evs if e["callee"].endswith("::get_weight")}
     points = {("CALL%d:get_point" % e["n"]): e for e in evs if e["callee"].endswith("::get_point")}
     loops = {}
     for l in sx.loops:
         for v in l["vars"]:
             loops[v["sym"]] = l
-    construct = {loc_name(e["this"]): e for e in evs if e["kind"] == "construct" and e["this"] is not None}
 
     for e in evals:
         esym = "CALL%d:eval" % e["n"]
-        # --- destination entries ------------------------------------------------------------------
+        # --- destination entries (accumulators: locations with a loop-index subscript) ---------------
         dst = []
         for r, d in sx.store.m.items():
             for p, v in d.items():
                 if isinstance(v, Poly) and any(isinstance(x, str) and x.startswith("#") for x in p) and any(s == esym or s.startswith(esym + "[") for s in v.symbols()):
                     dst.append((Loc(r, p), v))
         if not dst:
-            ck.ob("E1.accumulate-roles", key, False, "the value of %s (line %s) is never accumulated into a local matrix/vector" % (e["callee"].rsplit("::", 2)[-2] + "::eval", e["line"]), f0.file, e["line"])
+            ck.incomplete("E1.accumulate-roles", "%s: the value of %s (line %s) is not accumulated into a local matrix/vector by a recognised construct" % (key, e["callee"].rsplit("::", 2)[-2] + "::eval", e["line"]))
             continue
         if kind == "matrix":
             phi, psi = e["args"][0], e["args"][1]
         else:
             phi, psi = None, e["args"][0]
-        problems = []
+        problems, punk = [], []
 
         def data_of(a, what):
             if not isinstance(a, Loc) or len(a.path) < 2 or a.path[-2] != "phi" or not (isinstance(a.path[-1], str) and a.path[-1].startswith("#")):
-                problems.append("%s argument %s is not <evaluation data>.phi[<loop index>]" % (what, a))
+                punk.append("%s argument %s is not <evaluation data>.phi[<loop index>]" % (what, a))
                 return None, None
             return loc_name(Loc(a.root, a.path[:-2])), a.path[-1][1:]
         psi_data, psi_idx = data_of(psi, "psi")
         phi_data, phi_idx = data_of(phi, "phi") if phi is not None else (None, None)
-        # roles of the data
         for what, dn, want in (("psi", psi_data, "test"), ("phi", phi_data, "trial")):
             if dn is None:
                 continue
             fe = fills.get(dn)
             if fe is None:
-                problems.append("%s data %s is not filled by a space evaluator on this route" % (what, dn))
+                punk.append("%s data %s is not filled by a recognised space evaluator call on this route" % (what, dn))
                 continue
             role = space_role(fe["ccls"] or fe["callee"])
-            if two_space and role != want:
-                problems.append("%s (the %s function) is taken from the data filled by the %s-space evaluator %s" % (what, want, role, loc_name(fe["this"])))
+            if two_space:
+                if role is None:
+                    punk.append("role of the evaluator %s not recognised" % loc_name(fe["this"]))
+                elif role != want:
+                    problems.append("%s (the %s function) is taken from the data filled by the %s-space evaluator %s" % (what, want, role, loc_name(fe["this"])))
             idx = psi_idx if what == "psi" else phi_idx
             lp = loops.get(idx)
             if lp is None or lp["cond"] is None or lp["cond"][0] != "<":
-                problems.append("%s index %s is not a counted loop variable" % (what, idx))
+                punk.append("%s index %s is not a recognised counted loop variable" % (what, idx))
             else:
                 bound = lp["cond"][2]
                 bname = bound.single_symbol() if isinstance(bound, Poly) else (loc_name(bound) if isinstance(bound, Loc) else None)
-                be = None
-                if bname:
-                    mm = re.match(r"^CALL(\d+):get_num_local_dofs$", bname)
-                    be = evs[int(mm.group(1))] if mm else None
-                if be is None or be["this"] is None or loc_name(be["this"]) != loc_name(fe["this"]):
-                    problems.append("the loop over the %s index %s runs to %s, not to get_num_local_dofs() of the evaluator %s that filled the data" % (what, idx, bname, loc_name(fe["this"])))
+                mm = re.match(r"^CALL(\d+):get_num_local_dofs$", bname or "")
+                be = evs[int(mm.group(1))] if mm else None
+                who = loc_name(be["this"]) if be is not None and be["this"] is not None else None
+                if who != loc_name(fe["this"]):
+                    if who in evaluators:
+                        problems.append("the loop over the %s index %s runs to get_num_local_dofs() of %s, the data is filled by %s" % (what, idx, who, loc_name(fe["this"])))
+                    else:
+                        punk.append("bound %s of the loop over the %s index is not a get_num_local_dofs() of a space evaluator" % (bname, what))
         # destination indices
-        wprob = []
+        wprob, wunk = [], []
+        want_idx = [psi_idx, phi_idx] if kind == "matrix" and not coeff else [psi_idx]
+        names = {loc_name(l) for l, v in dst}
         for loc, v in dst:
+            if loc_name(loc) not in v.symbols() and (v.symbols() & (names - {loc_name(loc)})):
+                continue   # a copy of another accumulator (e.g. a named temporary handed to the scatter): same value
             idxs = [p[1:] for p in loc.path if isinstance(p, str) and p.startswith("#")]
-            want_idx = [psi_idx, phi_idx] if kind == "matrix" and not coeff else [psi_idx]
-            if idxs[:len(want_idx)] != want_idx:
-                problems.append("eval(phi[%s], psi[%s]) is accumulated into entry %s of %s (expected row = test index %s%s)" % (phi_idx, psi_idx, idxs, loc_name(Loc(loc.root, tuple(p for p in loc.path if not (isinstance(p, int) or (isinstance(p, str) and p.startswith("#")))))), psi_idx, ", column = trial index %s" % phi_idx if len(want_idx) > 1 else ""))
+            if None not in want_idx and idxs[:len(want_idx)] != want_idx:
+                if set(idxs) <= {psi_idx, phi_idx}:
+                    problems.append("eval(phi[%s], psi[%s]) is accumulated into entry %s of %s (expected row = test index %s%s)" % (phi_idx, psi_idx, idxs, _strip_idx(loc), psi_idx, ", column = trial index %s" % phi_idx if len(want_idx) > 1 else ""))
+                else:
+                    punk.append("destination %s is subscripted by %s" % (loc_name(loc), idxs))
             # --- increment normal form ---------------------------------------------------------------
             inc = v - Poly.sym(loc_name(loc))
-            # block component = the trailing constant indices of the destination
             comp = []
             for p in reversed(loc.path):
                 if isinstance(p, int):
                     comp.insert(0, p)
                 else:
                     break
-            es = Poly.sym(esym + "".join("[%d]" % c for c in comp)) if comp else Poly.sym(esym)
             syms = inc.symbols()
+            esyms = [s for s in syms if s == esym or s.startswith(esym + "[")]
+            if len(esyms) != 1 or len(comp) + len(idxs) != len(loc.path) - len([q for q in loc.path if isinstance(q, str) and not q.startswith("#")]):
+                wunk.append("increment of %s is %s: not a single component of the eval value" % (loc_name(loc), inc))
+                continue
+            if esyms[0] != esym + "".join("[%d]" % c for c in comp):
+                wunk.append("component %s of the eval value goes to %s" % (esyms[0], loc_name(loc)))
+                continue
+            es = Poly.sym(esyms[0])
             wsyms = [s for s in syms if s in weights]
             jsyms = [s for s in syms if s.endswith(".jac_det")]
-            if len(wsyms) != 1 or len(jsyms) != 1:
-                wprob.append("increment of %s is %s: expected exactly one cubature weight and one jac_det factor" % (loc_name(loc), inc))
+            csyms = [s for s in syms if phi_idx is not None and s.endswith("[%s]" % phi_idx) and not s.startswith(esym)] if coeff else []
+            other = [s for s in syms if s not in wsyms and s not in jsyms and s not in csyms and not (s == esym or s.startswith(esym + "["))]
+            if other:
+                wunk.append("increment of %s contains the unrecognised factors %s" % (loc_name(loc), sorted(other)[:3]))
                 continue
-            want = es * Poly.sym(wsyms[0]) * Poly.sym(jsyms[0])
-            csym = None
-            if coeff:
-                cs = [s for s in syms if s not in (wsyms[0], jsyms[0]) and not s.startswith(esym)]
-                if len(cs) != 1 or not cs[0].endswith("[%s]" % phi_idx):
-                    wprob.append("apply route: increment %s does not contain the coefficient of trial dof %s exactly once" % (inc, phi_idx))
-                    continue
-                csym = cs[0]
-                want = want * Poly.sym(csym)
-            if inc != want:
-                wprob.append("increment of %s is %s, expected %s" % (loc_name(loc), inc, want))
+            want = es
+            ok_counts = len(wsyms) == 1 and len(jsyms) == 1 and (not coeff or len(csyms) == 1)
+            if ok_counts:
+                want = es * Poly.sym(wsyms[0]) * Poly.sym(jsyms[0])
+                if coeff:
+                    want = want * Poly.sym(csyms[0])
+            if not ok_counts or inc != want:
+                wprob.append("increment of %s is %s, expected eval * jac_det * weight(k)%s with each factor exactly once" % (loc_name(loc), inc, " * coeff(j)" if coeff else ""))
                 continue
             # weight and jac_det belong to the same cubature point as the data
             we = weights[wsyms[0]]
@@ -614,36 +645,42 @@ def analyse_route(ck, facts, key, fns, two_space, kind, coeff=False):
             tdn = jsyms[0][:-len(".jac_det")]
             te = trafo_fill.get(tdn)
             if kname is None or kname not in loops:
-                wprob.append("the weight index %s is not the cubature loop variable" % kv)
+                wunk.append("the weight index %s is not a recognised cubature loop variable" % kv)
             elif te is None:
-                wprob.append("jac_det is read from %s which is not filled by the trafo evaluator on this route" % tdn)
+                wunk.append("jac_det is read from %s which is not filled by a recognised trafo evaluator call" % tdn)
             else:
                 pt = te["args"][1]
                 pname = loc_name(pt) if isinstance(pt, Loc) else None
                 pe = points.get(pname)
                 pk = val(pe["args"][0]) if pe is not None and pe["args"] else None
-                if pe is None or not isinstance(pk, Poly) or pk.single_symbol() != kname or loc_name(pe["this"]) != loc_name(we["this"]):
-                    wprob.append("the trafo data is computed at %s but the weight is get_weight(%s) of %s" % (pname, kname, loc_name(we["this"])))
+                if pe is None or not isinstance(pk, Poly) or pk.single_symbol() is None:
+                    wunk.append("the point %s the trafo data is computed at is not a recognised get_point(k)" % pname)
+                elif pk.single_symbol() != kname or loc_name(pe["this"]) != loc_name(we["this"]):
+                    wprob.append("the trafo data is computed at %s.get_point(%s) but the weight is %s.get_weight(%s)" % (loc_name(pe["this"]), pk, loc_name(we["this"]), kname))
                 lp = loops[kname]
                 b = lp["cond"][2] if lp["cond"] else None
                 bn = b.single_symbol() if isinstance(b, Poly) else (loc_name(b) if isinstance(b, Loc) else None)
                 mm = re.match(r"^CALL(\d+):get_num_points$", bn or "")
-                if not mm or loc_name(evs[int(mm.group(1))]["this"]) != loc_name(we["this"]):
-                    wprob.append("the cubature loop over %s is not bounded by get_num_points() of the rule whose weights are used" % kname)
+                if not mm:
+                    wunk.append("the bound %s of the cubature loop is not a recognised get_num_points()" % bn)
+                elif loc_name(evs[int(mm.group(1))]["this"]) != loc_name(we["this"]):
+                    wprob.append("the cubature loop runs to get_num_points() of %s, the weights are those of %s" % (loc_name(evs[int(mm.group(1))]["this"]), loc_name(we["this"])))
                 for dn in (psi_data, phi_data):
                     fe = fills.get(dn) if dn else None
-                    if fe is not None and (not isinstance(fe["args"][1], Loc) or loc_name(fe["args"][1]) != tdn):
+                    if fe is not None and isinstance(fe["args"][1], Loc) and loc_name(fe["args"][1]) != tdn and loc_name(fe["args"][1]) in trafo_fill:
                         wprob.append("basis data %s is evaluated with trafo data %s, jac_det comes from %s" % (dn, fe["args"][1], tdn))
-        ck.ob("E1.accumulate-roles", key, not problems, "; ".join(problems[:3]) if problems else "eval(%spsi = test[%s]) -> entry (%s)" % (("phi = trial[%s], " % phi_idx) if phi_idx else "", psi_idx, ",".join(x for x in (psi_idx, phi_idx if not coeff else None) if x)), f0.file, e["line"],
-              sample={"dst": loc_name(dst[0][0]), "value": str(dst[0][1])[:200]})
-        ck.ob("E7.weight-once", key, not wprob, "; ".join(wprob[:3]) if wprob else "increment = eval * jac_det * weight(k)%s, same cubature point" % (" * coeff(j)" if coeff else ""), f0.file, e["line"])
+        _finish(ck, "E1.accumulate-roles", key, problems, punk, "eval(%spsi = test[%s]) -> entry (%s)" % (("phi = trial[%s], " % phi_idx) if phi_idx else "", psi_idx, ",".join(x for x in (psi_idx, phi_idx if not coeff else None) if x)), f0.file, e["line"],
+                sample={"dst": loc_name(dst[0][0]), "value": str(dst[0][1])[:200]})
+        _finish(ck, "E7.weight-once", key, wprob, wunk, "increment = eval * jac_det * weight(k)%s, same cubature point" % (" * coeff(j)" if coeff else ""), f0.file, e["line"])
 
         # --- scatter -----------------------------------------------------------------------------------
-        sprob = []
-        dst_root = loc_name(Loc(dst[0][0].root, tuple(p for p in dst[0][0].path if not (isinstance(p, int) or (isinstance(p, str) and p.startswith("#"))))))
-        scat = [s for s in evs if s["kind"] == "call" and "ScatterAxpy::operator()" in s["callee"] and s["args"] and isinstance(s["args"][0], Loc) and loc_name(s["args"][0]) == dst_root]
-        if len(scat) != 1:
-            sprob.append("the accumulated local %s %s is handed to %d ScatterAxpy calls" % (kind, dst_root, len(scat)))
+        sprob, sunk = [], []
+        dst_roots = sorted({_strip_idx(l) for l, v in dst})
+        scat = [s for s in evs if s["kind"] == "call" and "ScatterAxpy::operator()" in s["callee"] and s["args"] and isinstance(s["args"][0], Loc) and loc_name(s["args"][0]) in dst_roots]
+        if not scat:
+            sunk.append("the accumulated local %s %s is not handed to a recognised ScatterAxpy call" % (kind, dst_roots))
+        elif len(scat) > 1:
+            sprob.append("the accumulated local %s is scattered %d times" % (kind, len(scat)))
         else:
             s = scat[0]
             targs = split_targs(s["cfull"])
@@ -651,27 +688,35 @@ def analyse_route(ck, facts, key, fns, two_space, kind, coeff=False):
             maps = s["args"][1:1 + nmap]
             want_roles = ["test", "trial"][:nmap]
             if len(targs) < 1 + nmap or len(maps) != nmap:
-                sprob.append("unexpected ScatterAxpy signature %s" % s["cfull"][-80:])
+                sunk.append("unexpected ScatterAxpy signature %s" % s["cfull"][-80:])
             else:
                 for pos, (mp, want) in enumerate(zip(maps, want_roles)):
                     role = space_role(targs[1 + pos])
                     pname = s["pn"][1 + pos] if len(s["pn"]) > 1 + pos else "?"
-                    if two_space and role != want:
-                        sprob.append("ScatterAxpy parameter %s receives the %s dof mapping %s (expected the %s mapping)" % (pname, role, mp, want))
-                    # prepared for the same cell as the trafo evaluator
-                    preps = [p for p in evs if p["callee"].endswith("::prepare") and p["this"] is not None and isinstance(mp, Loc) and loc_name(p["this"]) == loc_name(mp)]
-                    if isinstance(mp, Loc) and not is_member_route(fns) and not preps:
-                        sprob.append("dof mapping %s is scattered with but never prepared on this route" % mp)
+                    if two_space:
+                        if role is None:
+                            sunk.append("role of the dof mapping %s not recognised" % mp)
+                        elif role != want:
+                            sprob.append("ScatterAxpy parameter %s receives the %s dof mapping %s (expected the %s mapping)" % (pname, role, mp, want))
             if coeff:
                 gat = [g for g in evs if g["kind"] == "call" and "GatherAxpy::operator()" in g["callee"]]
-                csrc = csym.split("[")[0] if csym else None
-                if len(gat) != 1 or not isinstance(gat[0]["args"][0], Loc) or loc_name(gat[0]["args"][0]) != csrc:
-                    sprob.append("the coefficient vector %s used in the accumulation is not the one filled by GatherAxpy" % csrc)
+                csrc = None
+                for l, v in dst:
+                    for sname in v.symbols():
+                        if phi_idx is not None and sname.endswith("[%s]" % phi_idx) and not sname.startswith(esym):
+                            csrc = sname.split("[")[0]
+                mine = [g for g in gat if isinstance(g["args"][0], Loc) and loc_name(g["args"][0]) == csrc]
+                if len(mine) != 1:
+                    sunk.append("the coefficient vector %s used in the accumulation is not filled by a recognised GatherAxpy call" % csrc)
                 else:
-                    role = space_role(split_targs(gat[0]["cfull"])[1]) if len(split_targs(gat[0]["cfull"])) > 1 else None
-                    if two_space and role != "trial":
-                        sprob.append("coefficients are gathered with the %s dof mapping (expected the trial mapping)" % role)
-        ck.ob("E1.scatter-roles", key, not sprob, "; ".join(sprob[:3]) if sprob else "scatter(%s; row = test mapping%s)" % (dst_root, ", column = trial mapping" if kind == "matrix" and not coeff else ""), f0.file, (scat[0]["line"] if scat else f0.line))
+                    ta = split_targs(mine[0]["cfull"])
+                    role = space_role(ta[1]) if len(ta) > 1 else None
+                    if two_space:
+                        if role is None:
+                            sunk.append("role of the gather mapping not recognised")
+                        elif role != "trial":
+                            sprob.append("coefficients are gathered with the %s dof mapping (expected the trial mapping)" % role)
+        _finish(ck, "E1.scatter-roles", key, sprob, sunk, "scatter(%s; row = test mapping%s)" % (dst_roots[0], ", column = trial mapping" if kind == "matrix" and not coeff else ""), f0.file, (scat[0]["line"] if scat else f0.line))
 
 
 def is_member_route(fns):
@@ -736,7 +781,8 @@ def analyse_force_task(ck, facts, key, fns):
                 dst.append((Loc(r, p), v))
     problems, wprob = [], []
     if not dst:
-        problems.append("no accumulation found")
+        ck.incomplete("E1.accumulate-roles", "%s: no accumulation into the local vector recognised" % key)
+        return
     for loc, v in dst:
         inc = v - Poly.sym(loc_name(loc))
         idx = [p[1:] for p in loc.path if isinstance(p, str) and p.startswith("#")]
@@ -747,13 +793,19 @@ def analyse_force_task(ck, facts, key, fns):
         fs = [s for s in syms if s not in ws and s not in js and s not in ps]
         if len(ps) != 1:
             problems.append("increment %s does not contain psi[%s].value exactly once" % (inc, idx))
+        if len(fs) > 1:
+            ck.incomplete("E7.weight-once", "%s: increment %s contains the unrecognised factors %s" % (key, inc, fs))
+            return
         if len(ws) != 1 or len(js) != 1 or len(fs) != 1 or inc.degree() != 4 or len(inc.t) != 1:
             wprob.append("increment of %s is %s, expected f(x) * psi.value * jac_det * weight(k)" % (loc_name(loc), inc))
     ck.ob("E1.accumulate-roles", key, not problems, "; ".join(problems[:2]) if problems else "f(x) * psi[i].value -> entry (i)", f0.file, f0.line)
     ck.ob("E7.weight-once", key, not wprob, "; ".join(wprob[:2]) if wprob else "increment = f * psi.value * jac_det * weight(k)", f0.file, f0.line)
     scat = [s for s in sx.events if "ScatterAxpy::operator()" in s["callee"]]
-    ok = len(scat) == 1 and dst and isinstance(scat[0]["args"][0], Loc) and loc_name(scat[0]["args"][0]) == loc_name(Loc(dst[0][0].root, tuple(p for p in dst[0][0].path if not (isinstance(p, str) and p.startswith("#")))))
-    ck.ob("E1.scatter-roles", key, bool(ok), "the accumulated local vector is scattered once with the dof mapping" if ok else "the accumulated local vector is not the one handed to ScatterAxpy", f0.file, f0.line)
+    mine = [s for s in scat if isinstance(s["args"][0], Loc) and loc_name(s["args"][0]) in {_strip_idx(l) for l, v in dst}]
+    if not mine:
+        ck.incomplete("E1.scatter-roles", "%s: the accumulated local vector is not handed to a recognised ScatterAxpy call" % key)
+        return
+    ck.ob("E1.scatter-roles", key, len(mine) == 1, "the accumulated local vector is scattered once with the dof mapping" if len(mine) == 1 else "the accumulated local vector is scattered %d times" % len(mine), f0.file, f0.line)
 
 
 # -------------------------------------------------------------------------------------------------
@@ -761,6 +813,8 @@ def analyse_force_task(ck, facts, key, fns):
 # -------------------------------------------------------------------------------------------------
 
 def check_scatter(ck, facts, tier):
+    """Verdict policy as for the routes: a definite contradiction between recognised index expressions is a
+    violation, an index expression of an unrecognised shape is analysis-incomplete."""
     seen = set()
     for f in sorted(facts.functions, key=lambda f: f.full):
         m = re.match(r"^FEAT::LAFEM::(SparseMatrixCSR|SparseMatrixBCSR|DenseVector|DenseVectorBlocked)<[^:]*>::(ScatterAxpy|GatherAxpy)$", f.cls)
@@ -783,128 +837,129 @@ def check_scatter(ck, facts, tier):
         for l in sx.loops:
             for v in l["vars"]:
                 loops[v["sym"]] = l
-        problems = []
+        problems, unknown = [], []
         matrix = cont.startswith("SparseMatrix")
+        P = ["P%d" % i for i in range(len(f.params))]
 
-        def mapping_index(sym, want_param):
-            """sym = CALLn:get_index -> checks it is <param>.get_index(<loop var bounded by that param's get_num_local_dofs>)"""
+        def mapping_index(sym, want_param, what_idx):
+            """sym = CALLn:get_index -> loop variable, provided it is <want_param>.get_index(<loop var bounded by that
+            mapping's get_num_local_dofs>)"""
             e = idx_calls.get(sym)
             if e is None:
-                return None, "%s is not a get_index() value" % sym
+                unknown.append("%s index %s is not a get_index() value" % (what_idx, sym))
+                return None
             who = loc_name(e["this"]) if e["this"] is not None else "?"
             if who != want_param:
-                return None, "index %s comes from %s, expected %s" % (sym, who, want_param)
+                (problems if who in P else unknown).append("%s index %s comes from %s, expected the mapping parameter %s" % (what_idx, sym, who, want_param))
+                return None
             a = e["args"][0]
             av = sx.rv(a) if isinstance(a, Loc) else a
             lv = av.single_symbol() if isinstance(av, Poly) else None
             lp = loops.get(lv)
             if lp is None or not lp["cond"] or lp["cond"][0] != "<":
-                return None, "argument of get_index is not a counted loop variable"
+                unknown.append("argument %s of get_index is not a recognised counted loop variable" % av)
+                return None
             b = lp["cond"][2]
             bn = b.single_symbol() if isinstance(b, Poly) else (loc_name(b) if isinstance(b, Loc) else "")
             mm = re.match(r"^CALL(\d+):get_num_local_dofs$", bn or "")
-            if not mm or loc_name(evs[int(mm.group(1))]["this"]) != want_param:
-                return None, "loop over %s is not bounded by %s.get_num_local_dofs()" % (lv, want_param)
-            return lv, None
+            if not mm:
+                unknown.append("bound %s of the loop over %s is not a get_num_local_dofs()" % (bn, lv))
+                return None
+            who2 = loc_name(evs[int(mm.group(1))]["this"])
+            if who2 != want_param:
+                (problems if who2 in P else unknown).append("the loop over the %s index runs to %s.get_num_local_dofs(), the index is taken from %s" % (what_idx, who2, want_param))
+                return None
+            return lv
 
-        # parameters by position: (loc, row_map, [col_map,] alpha)
-        P = ["P%d" % i for i in range(len(f.params))]
         if matrix:
-            # 1. column table: this._col_ptr[#this._col_idx[#k]] = k with k in [row_ptr[ix], row_ptr[ix+1])
+            # 1. column table: tab[col_idx[k]] = k with k in [row_ptr[row], row_ptr[row+1])
             table = [(p, v) for p, v in sx.store.root("this").items() if len(p) == 2 and isinstance(p[1], str) and p[1].startswith("#") and isinstance(v, Poly) and v.single_symbol() in loops]
-            row_sym = None
+            rowvar = tabname = None
             if len(table) != 1:
-                problems.append("no unique column-pointer table write of the form tab[col_idx[k]] = k (found %d)" % len(table))
+                unknown.append("no unique column-pointer table write of the form tab[col_idx[k]] = k (found %d)" % len(table))
             else:
                 (tp, tv) = table[0]
+                tabname = tp[0]
                 ksym = tv.single_symbol()
-                mm = re.match(r"^#this\.(\w+)\[%s\]$" % re.escape(ksym), tp[1])
-                if not mm:
-                    problems.append("column table is indexed by %s, expected <column index array>[%s]" % (tp[1][1:], ksym))
-                colarr = mm.group(1) if mm else None
+                if not re.match(r"^#this\.(\w+)\[%s\]$" % re.escape(ksym), tp[1]):
+                    unknown.append("column table is indexed by %s, expected <column index array>[%s]" % (tp[1][1:], ksym))
                 lp = loops[ksym]
                 init = lp["vars"][0]["init"]
                 iname = init.single_symbol() if isinstance(init, Poly) else None
                 bound = lp["cond"][2] if lp["cond"] and lp["cond"][0] == "<" else None
                 bname = bound.single_symbol() if isinstance(bound, Poly) else None
-                mi = re.match(r"^this\.(\w+)\[(CALL\d+:get_index)\]$", iname or "")
-                mb = re.match(r"^this\.(\w+)\[1 \+ (CALL\d+:get_index)\]$", bname or "")
-                if not mi or not mb or mi.group(1) != mb.group(1) or mi.group(2) != mb.group(2):
-                    problems.append("column search runs over [%s, %s), expected [row_ptr[row], row_ptr[row+1]) of one row" % (iname, bname))
+                mi = re.match(r"^this\.(\w+)\[(.+)\]$", iname or "")
+                mb = re.match(r"^this\.(\w+)\[1 \+ (.+)\]$", bname or "")
+                if not mi or not mb or mi.group(1) != mb.group(1):
+                    unknown.append("column search runs over [%s, %s): not of the form [ptr[r], ptr[r+1])" % (iname, bname))
+                elif mi.group(2) != mb.group(2):
+                    problems.append("column search runs over [%s, %s): the two ends belong to different rows" % (iname, bname))
+                elif not re.match(r"^CALL\d+:get_index$", mi.group(2)):
+                    problems.append("column search runs over the segment of row %s, which is not a global row index obtained from the row mapping's get_index()" % mi.group(2))
                 else:
-                    row_sym = mi.group(2)
-                    lv, err = mapping_index(row_sym, P[1])
-                    if err:
-                        problems.append("row: " + err)
-                    rowvar = lv
-                tabname = tp[0] if len(table) == 1 else None
+                    rowvar = mapping_index(mi.group(2), P[1], "row")
             # 2. data access
             if what == "ScatterAxpy":
                 acc = [(p, v) for p, v in sx.store.root("this").items() if isinstance(v, Poly) and any(s.startswith(P[0] + "[") for s in v.symbols())]
             else:
                 acc = [(p, v) for p, v in sx.store.root(P[0]).items() if isinstance(v, Poly) and any(s.startswith("this.") for s in v.symbols())]
             if not acc:
-                problems.append("no accumulation between the local matrix and the matrix data found")
+                unknown.append("no accumulation between the local matrix and the matrix data recognised")
             for p, v in acc[:64]:
                 root = "this" if what == "ScatterAxpy" else P[0]
                 inc = v - Poly.sym(loc_name(Loc(root, p)))
                 syms = inc.symbols()
                 dsyms = [s for s in syms if s.startswith("this.")] if what == "GatherAxpy" else []
-                if what == "ScatterAxpy":
-                    dpath = p
-                    lsyms = [s for s in syms if s.startswith(P[0] + "[")]
-                else:
-                    lsyms = []
-                # the data location: this._data[#this._col_ptr[CALLn:get_index]] (+ block indices)
                 dname = loc_name(Loc("this", p)) if what == "ScatterAxpy" else (dsyms[0] if len(dsyms) == 1 else "")
                 mm = re.match(r"^this\.(\w+)\[this\.(\w+)\[(CALL\d+:get_index)\]\](.*)$", dname)
                 if not mm:
-                    problems.append("matrix data is addressed as %s, expected data[col_ptr[col_map.get_index(j)]]" % dname)
+                    unknown.append("matrix data is addressed as %s, not as data[col_ptr[col_map.get_index(j)]]" % dname)
                     continue
-                if len(table) == 1 and mm.group(2) != tabname:
+                if tabname is not None and mm.group(2) != tabname:
                     problems.append("data index is read from %s, the column search fills %s" % (mm.group(2), tabname))
-                jv, err = mapping_index(mm.group(3), P[2])
-                if err:
-                    problems.append("column: " + err)
+                jv = mapping_index(mm.group(3), P[2], "column")
+                if jv is None or rowvar is None:
                     continue
                 blk = mm.group(4)
+                lname = "%s[%s][%s]%s" % (P[0], rowvar, jv, blk)
                 if what == "ScatterAxpy":
-                    want = Poly.sym(P[3]) * Poly.sym("%s[%s][%s]%s" % (P[0], rowvar if row_sym else "?", jv, blk))
+                    want = Poly.sym(P[3]) * Poly.sym(lname)
+                    known = {P[3]} | {s for s in syms if s.startswith(P[0] + "[")}
                 else:
-                    lname = loc_name(Loc(P[0], p))
-                    okidx = lname == "%s[%s][%s]%s" % (P[0], rowvar if row_sym else "?", jv, blk)
-                    if not okidx:
-                        problems.append("gathered into %s, expected loc[%s][%s]%s" % (lname, rowvar if row_sym else "?", jv, blk))
+                    if loc_name(Loc(P[0], p)) != lname:
+                        problems.append("gathered into %s, expected %s" % (loc_name(Loc(P[0], p)), lname))
                     want = Poly.sym(P[3]) * Poly.sym(dname)
+                    known = {P[3], dname}
                 if inc != want:
-                    problems.append("increment is %s, expected %s" % (inc, want))
+                    (problems if syms <= known else unknown).append("increment is %s, expected %s" % (inc, want))
         else:
             root_dst = "this" if what == "ScatterAxpy" else P[0]
             acc = [(p, v) for p, v in sx.store.root(root_dst).items() if isinstance(v, Poly) and len(v.symbols()) >= 2 and any(isinstance(e, str) and e.startswith("#") for e in p)]
             if not acc:
-                problems.append("no accumulation between the local vector and the vector data found")
+                unknown.append("no accumulation between the local vector and the vector data recognised")
             for p, v in acc[:16]:
                 inc = v - Poly.sym(loc_name(Loc(root_dst, p)))
                 syms = inc.symbols()
                 dname = loc_name(Loc("this", p)) if what == "ScatterAxpy" else ([s for s in syms if s.startswith("this.")] or [""])[0]
                 mm = re.match(r"^this\.(\w+)\[(CALL\d+:get_index)\](.*)$", dname)
                 if not mm:
-                    problems.append("vector data is addressed as %s, expected data[map.get_index(i)]" % dname)
+                    unknown.append("vector data is addressed as %s, not as data[map.get_index(i)]" % dname)
                     continue
-                iv, err = mapping_index(mm.group(2), P[1])
-                if err:
-                    problems.append(err)
+                iv = mapping_index(mm.group(2), P[1], "vector")
+                if iv is None:
                     continue
                 lname = "%s[%s]%s" % (P[0], iv, mm.group(3))
                 if what == "ScatterAxpy":
                     want = Poly.sym(P[2]) * Poly.sym(lname)
+                    known = {P[2]} | {s for s in syms if s.startswith(P[0] + "[")}
                 else:
                     if loc_name(Loc(P[0], p)) != lname:
                         problems.append("gathered into %s, expected %s" % (loc_name(Loc(P[0], p)), lname))
                     want = Poly.sym(P[2]) * Poly.sym(dname)
+                    known = {P[2], dname}
                 if inc != want:
-                    problems.append("increment is %s, expected %s" % (inc, want))
-        ck.ob("E2.scatter-gather", key, not problems, "; ".join(problems[:3]) if problems else "row/column indices from the mappings, search inside the row segment, value alpha * loc(i,j)", f.file, f.line)
+                    (problems if syms <= known else unknown).append("increment is %s, expected %s" % (inc, want))
+        _finish(ck, "E2.scatter-gather", key, problems, unknown, "row/column indices from the mappings, search inside the row segment, value alpha * loc(i,j)", f.file, f.line)
 
 
 # -------------------------------------------------------------------------------------------------
@@ -977,20 +1032,27 @@ def check_symbolic(ck, facts, tier):
             return [d]
         chain = flat(ret) if ret else []
         tr, tl = ("test", "trial") if two else ("space", "space")
-        ok = False
-        if f.name.startswith("assemble_graph_std"):
-            ok = chain == [("T", ("dofs", tr)), ("dofs", tl)]
-        elif f.name == "assemble_graph_diag":
-            ok = bool(chain) and chain[0] == ("T", ("dofs", tr)) and chain[-1] == ("dofs", tl) or (len(chain) == 1 and chain[0][0] in ("id", "call", "?"))
-        else:
-            ok = len(chain) >= 3 and chain[0] == ("T", ("dofs", tr)) and chain[-1] == ("dofs", tl) and all(c[0] != "dofs" and not (c[0] == "T" and c[1][0] == "dofs") for c in chain[1:-1])
-        if any(c and c[0] == "o" and c[1] not in ("injectify", "injectify_sorted") for c in ([ret] if ret else [])):
-            problems.append("outer composition rendered %s" % ret[1])
         if f.name == "assemble_graph_diag" and not (chain and chain[0] == ("T", ("dofs", tr))):
             ck.note("%s: pattern %s (identity-like, not a dof-graph composition)" % (key, chain))
             ck.ob("E1.symbolic-graph", key, True, "diagonal pattern: %s" % (chain,), f.file, f.line, trivial=True)
             continue
-        ck.ob("E1.symbolic-graph", key, ok and not problems, ("pattern = %s" % " o ".join(render_desc(c) for c in chain)) + ("" if ok else "; expected transpose(%s dofs) o ... o (%s dofs)" % (tr, tl)) + ("; " + "; ".join(problems) if problems else ""), f.file, f.line)
+
+        def dofend(c):
+            """('T'|'N', role) if the chain element is a (transposed) dof graph of a space, else None"""
+            if c and c[0] == "dofs":
+                return ("N", c[1])
+            if c and c[0] == "T" and c[1] and c[1][0] == "dofs":
+                return ("T", c[1][1])
+            return None
+        first = dofend(chain[0]) if chain else None
+        last = dofend(chain[-1]) if chain else None
+        pat = " o ".join(render_desc(c) for c in chain)
+        if first is None or last is None or "?" in (first[1], last[1]) or (f.name.startswith("assemble_graph_std") and len(chain) != 2):
+            # the ends of the composition are not recognised dof graphs (helper function, different Graph constructor, ...)
+            ck.incomplete("E1.symbolic-graph", "%s: pattern %s is not recognised as a composition that starts with a transposed dof graph and ends with a dof graph" % (key, pat or ret))
+            continue
+        ok = first == ("T", tr) and last == ("N", tl)
+        ck.ob("E1.symbolic-graph", key, ok, ("pattern = %s" % pat) + ("" if ok else "; expected transpose(%s dofs) o ... o (%s dofs)" % (tr, tl)), f.file, f.line)
 
 
 def render_desc(d):
@@ -1125,7 +1187,7 @@ def analyse_voxel_kernel(ck, facts, f, key, fields, flags):
         memo[n] = pr
         return pr
 
-    pprob, wprob = [], []
+    pprob, wprob, wunk = [], [], []
     seen_det = seen_basis = 0
     dets = set()
     vers = set()
@@ -1134,6 +1196,10 @@ def analyse_voxel_kernel(ck, facts, f, key, fields, flags):
             ds = [(s, e) for s, e in mon if re.match(r"^CALL\d+:(det|vol)$", s)]
             ws = [(s, e) for s, e in mon if s.startswith(P["cub_wg"] + "[")]
             if len(ds) != 1 or ds[0][1] != 1 or len(ws) != 1 or ws[0][1] != 1 or ws[0][0] != wsym:
+                if not ds and any(sn.startswith("CALL") for sn, e in mon):
+                    # a factor produced by a call the rule does not know may be the determinant
+                    wunk.append("term %s contains the unrecognised call results %s" % (Poly({mon: cf}), [sn for sn, e in mon if sn.startswith("CALL")]))
+                    continue
                 if len(wprob) < 3:
                     wprob.append("term %s of the increment of %s%s has det factors %s and weight factors %s (expected one det and one %s)" % (
                         Poly({mon: cf}), names[0], symex.path_str(p), ds, ws, "cub_wg[k]"))
@@ -1157,8 +1223,12 @@ def analyse_voxel_kernel(ck, facts, f, key, fields, flags):
         pprob += ["basis data: " + x for x in problems_of(vn)]
     has_point_call = any(at_point(evs[x]) is True for x in memo)
     if not has_point_call and not pprob:
-        pprob.append("no call evaluated at cub_pt[k] feeds the accumulation")
+        ck.incomplete("E7.voxel-point-dependence", "%s: no recognised call evaluated at a reference point feeds the accumulation (helper not modelled?)" % key)
+        return
     pprob = sorted(set(pprob))
     ck.ob("E7.voxel-point-dependence", key, not pprob, "; ".join(pprob[:3]) if pprob else "det, gradients and values of the %d accumulated entries derive from calls at cub_pt[k] (%d defining calls checked)" % (len(incs), len(memo)), f.file, f.line,
           sample={"entry": symex.path_str(incs[0][0]), "increment": str(incs[0][1])[:240]})
-    ck.ob("E7.voxel-weight-once", key, not wprob and seen_det > 0, "; ".join(wprob[:2]) if wprob else ("every term carries det(J(cub_pt[k])) * cub_wg[k] once" if seen_det else "no determinant factor found"), f.file, f.line)
+    if not wprob and (wunk or not seen_det):
+        ck.incomplete("E7.voxel-weight-once", "%s: %s" % (key, "; ".join(wunk[:2]) or "no determinant factor recognised"))
+        return
+    ck.ob("E7.voxel-weight-once", key, not wprob, "; ".join(wprob[:2]) if wprob else "every term carries det(J(cub_pt[k])) * cub_wg[k] once", f.file, f.line)
